@@ -38,6 +38,13 @@ func init() {
 		Assumptions: []string{"authenticity of every envelope is known to the harness by construction (it made or broke the signature itself, re-signing under other contexts with raw ed25519 outside the oasis signature package)", "a bit-flipped envelope that decodes to the identical (blob, key, signature) triple counts as the original"},
 	})
 	reg(&core.Property{
+		ID: "C15", Level: "exploration",
+		Batches: []core.Batch{{Name: "shares", Engine: chain.Engine{Prop: "C15"}, Quick: 1200, Thorough: 30000,
+			Rule: "a run is non-trivial when at least three blocks were checked and at least one deposit or reclaim was observed transaction by transaction"}},
+		Real: chainReal, Stub: chainStub,
+		Assumptions: []string{"per-transaction pool and delegation state is observed on the plain-delivery observer replica; block-boundary effects (rewards, slashing, debonding completion) are observed between committed states with the block's events", "the 'paid out <= paid in + rewards' clause is covered through its per-operation consequences (pro-rata minting/redemption, no bystander loss, price falls only by slashing), not by a cumulative ledger"},
+	})
+	reg(&core.Property{
 		ID: "C01", Level: "exploration",
 		Batches: []core.Batch{{Name: "replicas", Engine: chain.Engine{Prop: "C01"}, Quick: 1500, Thorough: 40000,
 			Rule: "a run is non-trivial when at least three heights were produced"}},
